@@ -52,11 +52,27 @@ class Source:
         for file, f in self.files.items():
             self._collect(file, f["items"])
 
+    def _nested_items(self, file, body):
+        """items declared inside function bodies (e.g. the *HashData structs)"""
+        def stmts(ss):
+            for st in ss or []:
+                if st.get("k") == "item" and st.get("item"):
+                    yield st["item"]
+        for it in stmts(body):
+            if it.get("k") == "struct":
+                it["file"] = file
+                it["nested"] = True
+                self.structs.setdefault(it["name"], it)
+            elif it.get("k") == "enum":
+                it["file"] = file
+                self.enums.setdefault(it["name"], it)
+
     def _collect(self, file, items):
         for it in items:
             k = it.get("k")
             if k == "fn":
                 self.fns.append(FnInfo(file, None, None, it))
+                self._nested_items(file, it.get("body"))
             elif k == "impl":
                 owner = norm_ty(it["self_ty"])
                 owner = re.sub(r"<.*>$", "", owner)
@@ -65,6 +81,7 @@ class Source:
                 for sub in it["items"]:
                     if sub["k"] == "fn":
                         self.fns.append(FnInfo(file, owner, tr, sub))
+                        self._nested_items(file, sub.get("body"))
                     elif sub["k"] == "const":
                         self.consts["%s::%s" % (owner, sub["name"])] = sub
             elif k == "trait":
